@@ -794,8 +794,11 @@ class Pair:
         self.img, self.sizes, self.ctag, self.trace, self.poke, self.kind = img, sizes, ctag, trace, poke, kind
 
     def case(self):
-        return {'kind': self.kind, 'fmt': self.img.fmt, 'content': self.img.field, 'sizes': pack_sizes(self.sizes),
-                'trace': 1 if self.trace else 0, 'tag': self.img.tag + ' ' + self.ctag}
+        c = {'kind': self.kind, 'fmt': self.img.fmt, 'content': self.img.field, 'sizes': pack_sizes(self.sizes),
+             'trace': 1 if self.trace else 0, 'tag': self.img.tag + ' ' + self.ctag}
+        if self.img.wellformed:            # lets the C07 search apply the declared-size oracle to a disagreeing case
+            c.update(declared=self.img.declared, size_at=self.img.size_at, params=self.img.params)
+        return c
 
     def line(self):
         if self.kind == 'wrap':
